@@ -369,6 +369,7 @@ func runStrHist(f []string) string {
 	var outs []string
 	var got []*string
 	var snaps []string
+	var inputs [][]byte
 	bad := ""
 	target := "initial-target"
 	for _, c := range f[2:] {
@@ -400,9 +401,19 @@ func runStrHist(f []string) string {
 				snaps = append(snaps, strings.Clone(target))
 			}
 		}
+		// no call may write into the input of an earlier call (each input is '#'-filled after its call)
+		for k, in := range inputs {
+			for _, c := range in {
+				if c != '#' {
+					bad = fmt.Sprintf("EARLIER-INPUT-WRITTEN %d", k)
+					break
+				}
+			}
+		}
 		for i := range data {
 			data[i] = '#'
 		}
+		inputs = append(inputs, data)
 		for i := range got {
 			if *got[i] != snaps[i] {
 				bad = fmt.Sprintf("EARLIER-STRING-CHANGED %d", i)
